@@ -112,6 +112,25 @@ func (x *Exec) generate() {
 			pre = append(pre, g)
 		}
 	}
+	// ghost definitions: a ghost flag nobody writes is defined, for this activation, by a formula over the entry state
+	for _, c := range x.Case.Clauses {
+		if c.Kind != "ghostdef" {
+			continue
+		}
+		tn := strings.TrimPrefix(c.Params, "*")
+		ty := x.P.LookupType(tn)
+		if ty == nil || !strings.HasPrefix(c.Name, "gb_") {
+			x.Oblige("spec-error", "ghostdef: unknown type or name "+c.Text, "", 0, True, False, nil)
+			continue
+		}
+		ov := x.VC.Fresh("go", IntS)
+		denv := x.topSpecEnv(st, True, false)
+		denv.vars[c.Block] = Scalar{T: ov, Ty: types.NewPointer(ty)}
+		body := denv.EvalBool(c.Expr)
+		x.reportSpecErrors(denv, x.TopName, c)
+		flag := x.ghostField(st, c.Name[3:], ov, BoolS)
+		x.VC.AssumeForall([]*Term{ov}, True, Eq(flag, body), "ghostdef")
+	}
 	o := x.Oblige("vacuity", "requires satisfiable", "", fn.Pos(), True, True, nil)
 	if o != nil {
 		o.MustSat = true
